@@ -108,6 +108,9 @@ func verifProject(t *token) VerifToken {
 	vt := VerifToken{Kind: verifTokenKind(t), Text: t.Match, Post: t.CheckForPostTraverse}
 	if t.TokenType == operationToken && t.Operation != nil && t.Operation.OperationType != nil {
 		vt.OpType = t.Operation.OperationType.Type
+		if t.Operation.OperationType == envsubstOpType {
+			vt.OpType = t.Operation.toString() // envsubst describes its options in the operation's value
+		}
 		vt.Precedence = t.Operation.OperationType.Precedence
 		vt.NumArgs = t.Operation.OperationType.NumArgs
 		vt.Update = t.Operation.UpdateAssign
